@@ -6,6 +6,7 @@
 From Coq Require Import List Bool Arith PeanoNat ZArith QArith Qcanon Permutation Reals.
 From PV Require Import Base.Ravel C06.Model C06.Spec C06.Proofs C06.ProofsEst C06.ProofsEM C06.ProofsInv.
 From PV Require Import C06.EMReal C06.EMInst.
+From PV Require Import C06.ProofsScale.
 Import ListNotations.
 Open Scope Qc_scope.
 
@@ -139,6 +140,14 @@ Theorem C06_parent_order_invariant : forall card cols rows gp gp', Permutation g
   (forall prev n, fit_update_cpd card cols rows gp prev n = fit_update_cpd card cols rows gp' prev n).
 Proof. exact parent_order_invariant. Qed.
 Print Assumptions C06_parent_order_invariant.
+
+(* weighted MLE is count/total: multiplying EVERY row weight by a common non-zero factor leaves the whole fitted
+   table unchanged -- in particular a configuration whose total weight is tiny but non-zero is still an OBSERVED
+   configuration (the uniform fill is for all-zero columns only, there is no tolerance) *)
+Theorem C06_mle_weight_scale_invariant : forall card cols rows child gp c, c <> 0 ->
+  mle_cpd card cols (scale_rows c rows) child gp = mle_cpd card cols rows child gp.
+Proof. exact mle_scale_invariant. Qed.
+Print Assumptions C06_mle_weight_scale_invariant.
 
 (* ---- fit_update = Bayesian fit with prior = previous CPD (by NAMED parent configuration) x n_prev -------- *)
 (* holds for ANY order in which the previous CPD lists its parents (what defect D4 broke) *)
